@@ -203,7 +203,7 @@ fn shapes(quick: bool) -> Vec<Shape> {
     }}}
     let (mb, mc) = if quick { (4, 4) } else { (8, 8) };
     for sec in 3..=msec { for body in 1..=mb { for cap in 1..=mc { for r in radii { v.push(Shape::Capsule { sec, body, cap, r }); } } } }
-    for profile in 0..3 { for sec in 3..=msec.min(12) { for (az0, az1) in [(0, 8), (0, 4), (0, 2), (1, 3), (-2, 5), (0, 7)] { for capped in [false, true] {
+    for profile in 0..3 { for sec in 3..=msec.min(12) { for (az0, az1) in [(0, 8), (0, 4), (0, 2), (1, 3), (-2, 5), (0, 7), (3, 6), (4, 8), (5, 13), (-4, -1)] { for capped in [false, true] {
         v.push(Shape::Lathe { profile, sec, az0, az1, capped });
     }}}}
     v
